@@ -35,6 +35,7 @@ def run(f_on, f_off, nonce, f_allfeat=None, positive=None):
             out['errors'].append('no facts for crate truc_runtime (%s)' % label)
         else:
             try:
+                rt = helper_view(rt, lambda c: (src_rules.rule_prim(src_rules.Ctx(), c), src_rules.run_runtime_rules(src_rules.Ctx(), c, label)), cfg)
                 ps = src_rules.rule_prim(ctx, rt)
                 if label == 'debug-assertions=on':
                     out['prim_summary'] = ps
@@ -46,6 +47,7 @@ def run(f_on, f_off, nonce, f_allfeat=None, positive=None):
                 out['errors'].append('no facts for crate truc (%s)' % label)
         else:
             try:
+                tr = helper_view(tr, lambda c: src_rules.run_truc_rules(src_rules.Ctx(), c, label), cfg)
                 src_rules.run_truc_rules(ctx, tr, label)
             except Exception as e:
                 out['errors'].append('SRC truc rules crashed (%s): %s\n%s' % (label, e, traceback.format_exc()[-1500:]))
@@ -85,6 +87,20 @@ def run(f_on, f_off, nonce, f_allfeat=None, positive=None):
             out['errors'].append('positive controls: %s' % e)
     out['evidence'] = ev
     return out
+
+
+def helper_view(crate, dry_run, cfg):
+    """Private helper functions that no rule names as an anchor are inlined into their (same-module)
+    callers: a rule anchored on an entry point then sees the code the entry point runs, whether or
+    not it was split into helpers.  The anchors are found by a dry run of the rules."""
+    rec = mirlib.RecordingCrate(crate)
+    try:
+        dry_run(rec)
+    except Exception:
+        pass
+    view = mirlib.CrateView(crate, pinned=rec.asked)
+    cfg.setdefault('inlined_helpers', {})[crate.name] = sorted(view.absorbed)
+    return view
 
 
 def thresholds(f_on, nonce):
